@@ -229,10 +229,15 @@ func checkC18(eng *Engine, prop, tier string, seed int, t0 time.Time, evPath str
 		vc.obls = append(vc.obls, o)
 	}
 	vc.rawPrelude = prelude.String()
+	findings := loadFindings(filepath.Join(verif, "known_findings.txt"))
+	for _, fd := range findings {
+		if fd.Kind == "finding" && fd.Property == prop {
+			knownFindingObls[fd.Obligation] = true
+		}
+	}
 	solveAll([]*VC{vc}, dir, 20, seed, false)
 	defer func() { maybeRecordProofs([]*VC{vc}) }()
 
-	findings := loadFindings(filepath.Join(verif, "known_findings.txt"))
 	nObl, nOK, violations := 0, 0, 0
 	var knownHit []string
 	var samples []any
